@@ -48,6 +48,7 @@ type Model struct {
 	demoteMemo map[string]bool
 	validateFn *ssa.Function
 	storeReach map[*ssa.Function]bool
+	ownershipExtras map[*ssa.Function][]string
 	la      *LockAnalysis
 
 	problems []string
@@ -93,7 +94,7 @@ func isNamed(t types.Type, pkgPath, name string) bool {
 }
 
 func buildModel(p *Program) *Model {
-	m := &Model{P: p, Sym: newSymbolizer(p), StateConsts: map[string]string{}, guards: map[*ssa.BasicBlock][]Lit{}, facts: map[factKey]factResult{}, demoteMemo: map[string]bool{}, storeReach: map[*ssa.Function]bool{}}
+	m := &Model{P: p, Sym: newSymbolizer(p), StateConsts: map[string]string{}, guards: map[*ssa.BasicBlock][]Lit{}, facts: map[factKey]factResult{}, demoteMemo: map[string]bool{}, storeReach: map[*ssa.Function]bool{}, ownershipExtras: map[*ssa.Function][]string{}}
 	m.Funcs = p.libFuncs()
 	lp := p.Leader
 
